@@ -2,6 +2,7 @@ import Zc.Proofs.SurviveHost
 import Zc.Proofs.SurviveComp
 import Zc.Proofs.SurviveLive
 import Zc.Proofs.SurviveTimersC
+import Zc.Proofs.SurviveFlush
 import Zc.Props.C15Route
 import Zc.Props.C02
 /-! # C15 — a running instance survives any datagram stream
@@ -515,6 +516,44 @@ example (r0 : ρ) (h : Iρ r0) : CTInv lower ettl Iρ ⟨{}, [], [], [], {}, [],
    ⟨by intro cs hcs; simp at hcs, by intro cs hcs; simp at hcs, by intro i hi; simp at hi⟩⟩
 
 end timers
+
+/-! ### the multicast answer queue flush, on the routing residue of C12 -/
+
+section flush
+open Zc.Survive.Comp Zc.Survive.Route
+variable (lower : String → String) (possible : String → List String) (ettl : Nat)
+variable (attrib : Question → Rec → Bool) (orc : Route.Oracle)
+variable {ρ₀ ω' : Type} (B : Route.Base ρ₀ ω') (I₀ : ρ₀ → Prop) (sz : QueryGen.QOut → Nat)
+
+/-- **The multicast answer queue flush never raises** (`MulticastOutgoingQueue.async_ready` = C12's `Queue.ready`, then
+`_add_answers_additionals` + `packets()`): under the full invariant — `FInv`: every record object behind an id of the queues was
+handed out by the registry while `RegSafe` held — the batch is a safe message; the table is unchanged, both queues keep C12's
+clock-free invariant `QShape` (one timer iff non-empty, strictly increasing `send_after`). -/
+theorem C15_queue_flush_total {d : CState (ρ₀ × Route.RState)} (hI : CFInv lower ettl I₀ d) (delay : Bool) (now : Ms) :
+    ∃ d' pks, flushStep lower d delay now = .ok (d', pks) ∧ CFInv lower ettl I₀ d' :=
+  flushStep_ok lower ettl I₀ hI delay now
+
+/-- **Survival, every history, all three packet-building timer blocks inside the quantifier** (`_partial`).  Over the
+composite whose residue is C12's reply model: assumptions left are `BaseOK` (user `RecordUpdateListener`s, waking lookup
+futures, `async_notify_all`), the text-layer identity `TextGlue`, the data invariants inside `CFInv` (`RegSafe`, `TypesSafe`,
+the lookups' given names) and `hO` for the *residual* blocks (registration API, browser / lookup start and stop, cache purge).
+Every finite interleaving of datagram arrivals, deferred-query timers, browser query timers, lookup query transmissions,
+queue flushes and residual blocks runs to its end with the invariant in force — or contains a deferred-query timer block for
+an address whose timer is not armed at that point. -/
+theorem C15_history_all_timers_partial {β : Type} (glue : TextGlue) (hB : Route.BaseOK B I₀)
+    (other' : CState (ρ₀ × Route.RState) → β → Except PyExc (CState (ρ₀ × Route.RState) × List (COut ω')))
+    (hO : ∀ d b, CFInv lower ettl I₀ d → ∃ d' o, other' d b = .ok (d', o) ∧ CFInv lower ettl I₀ d')
+    (d0 : CState (ρ₀ × Route.RState)) (h0 : CFInv lower ettl I₀ d0)
+    (bs : List (Survive.Block (TimerBlock ⊕ (FlushBlock ⊕ β)))) :
+    (∃ s' out, run (Comp.down lower possible ettl (Route.rest lower attrib orc B)) (otherF lower sz other') (State.init d0) bs = .ok (s', out) ∧
+        CFInv lower ettl I₀ s'.down ∧ LInv s') ∨
+      (∃ pre addr post s1 o1, bs = pre ++ Survive.Block.tcFire addr :: post ∧
+        run (Comp.down lower possible ettl (Route.rest lower attrib orc B)) (otherF lower sz other') (State.init d0) pre = .ok (s1, o1) ∧
+        alGet addr s1.timers = none) :=
+  run_ok' (comp_downOK_F lower possible ettl attrib orc B I₀ glue hB) sendOK_safe (otherF lower sz other')
+    (otherF_ok lower ettl I₀ sz glue other' hO) bs (State.init d0) h0 (LInv.init d0)
+
+end flush
 
 /-- the full-strength statement of DESIGN §7 (no hypotheses on the downstream components): not proved
 here — it needs the C03/C05/C06/C04/C12 models composed into one `Down` instance. -/
